@@ -489,6 +489,9 @@ def unit_C11(src):
             u.lemma_texts.append(L.render_assumed('C03'))
     add_laws(u, c_metric.laws(F))
     u.lemma_texts.append(c_metric.handwritten())
+    cs, cstext = c_metric.cs_laws(F)
+    add_laws(u, cs)
+    u.lemma_texts.append(cstext)
     return u
 
 
